@@ -32,6 +32,7 @@ import (
 	"google.golang.org/protobuf/proto"
 	"google.golang.org/protobuf/types/descriptorpb"
 	"google.golang.org/protobuf/types/known/durationpb"
+	"google.golang.org/protobuf/types/known/sourcecontextpb"
 	"google.golang.org/protobuf/types/known/structpb"
 	"google.golang.org/protobuf/types/known/timestamppb"
 	"google.golang.org/protobuf/types/known/typepb"
@@ -698,6 +699,22 @@ func streamC09(r *hx.Rng) {
 		}},
 		{"gogotypes.Timestamp", "gogo", func() interface{} { return &gogotypes.Timestamp{Seconds: 1, Nanos: 2} }},
 		{"gogodesc.Field", "gogo", func() interface{} { return &gogodesc.FieldDescriptorProto{Name: str("x"), Number: i32(3)} }},
+		// non-empty NESTED messages (the runtimes take nested length prefixes from caches a sizing pass fills in)
+		{"gogodesc.Message+nested", "gogo", func() interface{} {
+			t := true
+			return &gogodesc.DescriptorProto{Name: str("M"), Field: []*gogodesc.FieldDescriptorProto{{Name: str("f"), Number: i32(1), Options: &gogodesc.FieldOptions{Deprecated: &t}}},
+				Options: &gogodesc.MessageOptions{Deprecated: &t}, NestedType: []*gogodesc.DescriptorProto{{Name: str("N"), Options: &gogodesc.MessageOptions{MapEntry: &t}}}}
+		}},
+		{"gogotypes.Type+nested", "gogo", func() interface{} {
+			return &gogotypes.Type{Name: "T", Fields: []*gogotypes.Field{{Name: "a", Number: 1}, {Name: "b", Number: 300}}, SourceContext: &gogotypes.SourceContext{FileName: "f.proto"}}
+		}},
+		{"descriptorpb.Message+nested", "google", func() interface{} {
+			return &descriptorpb.DescriptorProto{Name: proto.String("M"), Field: []*descriptorpb.FieldDescriptorProto{{Name: proto.String("f"), Number: proto.Int32(1), Options: &descriptorpb.FieldOptions{Deprecated: proto.Bool(true)}}},
+				Options: &descriptorpb.MessageOptions{Deprecated: proto.Bool(true)}, NestedType: []*descriptorpb.DescriptorProto{{Name: proto.String("N"), Options: &descriptorpb.MessageOptions{MapEntry: proto.Bool(true)}}}}
+		}},
+		{"typepb.Type+nested", "google", func() interface{} {
+			return &typepb.Type{Name: "T", Fields: []*typepb.Field{{Name: "a", Number: 1}, {Name: "b", Number: 300}}, SourceContext: &sourcecontextpb.SourceContext{FileName: "f.proto"}}
+		}},
 	}
 	n := 60
 	if thorough {
@@ -785,6 +802,26 @@ func modifySize(r *hx.Rng, m interface{}) (done bool) {
 		rm = pm.ProtoReflect()
 	} else {
 		rm = protoimpl.X.ProtoMessageV2Of(m).ProtoReflect()
+	}
+	// half of the time, go down into a set nested message (singular, or an element of a list) and modify that one
+	for depth := 0; depth < 3 && r.Bool(); depth++ {
+		var subs []protoreflect.Message
+		rm.Range(func(fd protoreflect.FieldDescriptor, v protoreflect.Value) bool {
+			if fd.Kind() == protoreflect.MessageKind && !fd.IsMap() {
+				if fd.IsList() {
+					for i := 0; i < v.List().Len(); i++ {
+						subs = append(subs, v.List().Get(i).Message())
+					}
+				} else {
+					subs = append(subs, v.Message())
+				}
+			}
+			return true
+		})
+		if len(subs) == 0 {
+			break
+		}
+		rm = subs[r.Intn(len(subs))]
 	}
 	fds := rm.Descriptor().Fields()
 	start := r.Intn(fds.Len())
